@@ -746,6 +746,14 @@ func (s *rSim) nextOp() string {
 		s.drainUntil = true
 		r.OpDone()
 		return desc
+	case "opmode":
+		if s.c19 || len(op.Script) == 0 || len(op.Alloc) == 0 {
+			r.OpSkipped()
+			return desc
+		}
+		s.opmodeScenario(op)
+		r.OpDone()
+		return desc
 	case "pod_bind_ext":
 		// somebody else binds a pod: only pods this scheduler never tried to place; a reservation-allocated
 		// record only for a reservation this scheduler's cache knows (single-scheduler assumption)
@@ -1170,4 +1178,112 @@ func (s *rSim) reserveStep() string {
 	}
 	s.r.Event("reserve %s %s", puid, uid)
 	return fmt.Sprintf("reserve %s into %s", puid, uid)
+}
+
+// ---------------------------------------------------------------- reservation-operating-mode pods
+
+// opmodeScenario: a pod in reservation operating mode (it acts as a reservation; its owner specification is the
+// reservation-owners annotation) is added to a cache of its own through the real pod handler and then updated
+// through the versions of op.Script. After every version each live pod of the run is presented to the real
+// MatchOwners and, as the PreFilter transformer does, to ForEachMatchableReservationOnNode +
+// checkReservationMatchedOrIgnored. Statement: a pod is only ever matched to a reservation whose owner
+// specification it satisfies - the CURRENT one; a reservation without a usable owner specification serves nobody.
+// The cache is a separate instance: the ledgers and indexes of the main history are not touched.
+func (s *rSim) opmodeScenario(op rOp) {
+	r := s.r
+	node := nodeName(op.N % s.cfg.Nodes)
+	rLister := listerschedulingv1alpha1.NewReservationLister(s.resvStream.lst)
+	podLister := listercorev1.NewPodLister(s.podStream.lst)
+	h := &podEventHandler{cache: newReservationCache(rLister), nominator: newNominator(podLister, rLister)}
+	uid := fmt.Sprintf("op-%d", s.opi)
+	build := func(i int) *corev1.Pod {
+		st := op.Script[i]
+		p := &corev1.Pod{
+			ObjectMeta: metav1.ObjectMeta{Name: uid, Namespace: "default", UID: types.UID(uid), ResourceVersion: fmt.Sprint(i + 1),
+				Labels: map[string]string{apiext.LabelPodOperatingMode: string(apiext.ReservationPodOperatingMode)}, Annotations: map[string]string{}},
+			Spec:   corev1.PodSpec{NodeName: node, Containers: []corev1.Container{{Name: "c", Resources: corev1.ResourceRequirements{Requests: toRL(op.Alloc)}}}},
+			Status: corev1.PodStatus{Phase: corev1.PodRunning, Conditions: []corev1.PodCondition{{Type: corev1.PodReady, Status: corev1.ConditionTrue}}},
+		}
+		if st.Ready != nil && !*st.Ready {
+			p.Status.Conditions[0].Status = corev1.ConditionFalse
+		}
+		switch st.Mode {
+		case "owners":
+			var owners []schedulingv1alpha1.ReservationOwner
+			for _, o := range st.Owners {
+				owners = append(owners, o.api())
+			}
+			if err := apiext.SetReservationOwners(p, owners); err != nil {
+				r.HarnessFail("SetReservationOwners: %v", err)
+			}
+		case "empty":
+			p.Annotations[apiext.AnnotationReservationOwners] = ""
+		case "broken":
+			p.Annotations[apiext.AnnotationReservationOwners] = "{not-a-list"
+		case "emptylist":
+			p.Annotations[apiext.AnnotationReservationOwners] = "[]"
+		}
+		return p
+	}
+	var prev *corev1.Pod
+	for i := range op.Script {
+		st := op.Script[i]
+		cur := build(i)
+		if prev == nil {
+			h.OnAdd(cur, false)
+		} else {
+			h.OnUpdate(prev, cur)
+		}
+		prev = cur
+		r.OracleEval()
+		r.Probe("opmode-version:" + st.Mode)
+		ri := h.cache.reservationInfos[types.UID(uid)]
+		if ri == nil {
+			s.fail("opmode", "not-cached", "operating-mode pod %s on %s (version %d, %s) is not in the reservation cache", uid, node, i, st.Mode)
+		}
+		spec := &sResv{}
+		if st.Mode == "owners" {
+			spec.Owners = st.Owners
+		}
+		ready := st.Ready == nil || *st.Ready
+		offered := map[string]bool{}
+		for _, k := range sortedKeys(s.st.pods) {
+			ps := s.st.pods[k]
+			pod := ps.obj()
+			want := ownersMatch(spec, ps)
+			if got := ri.MatchOwners(pod); got != want {
+				d := "non-owner-matched"
+				if want {
+					d = "owner-refused"
+				}
+				s.fail("opmode-owner", d, "operating-mode pod %s, version %d of its owner specification is %s %+v: MatchOwners(pod %s ns=%s labels=%v ctrl=%+v)=%v", uid, i, st.Mode, st.Owners, ps.uid(), ps.NS, ps.Labels, ps.Ctrl, got)
+			}
+			if want {
+				r.Probe("opmode-owner-matched")
+			}
+			podRequests := resourceapi.PodRequests(pod, resourceapi.PodResourcesOptions{})
+			diag := &nodeDiagnosisState{nodeName: node, taintsUnmatchedReasons: map[string]int{}}
+			h.cache.ForEachMatchableReservationOnNode(node, func(x *frameworkext.ReservationInfo) (bool, *fwktype.Status) {
+				offered[string(x.UID())] = true
+				if checkReservationMatchedOrIgnored(pod, x, diag, s.nodes[node].Node(), podRequests, nil, nil, "", false) && !want {
+					s.fail("opmode-owner", "offered-to-non-owner", "pod %s (ns=%s labels=%v ctrl=%+v) was matched to operating-mode pod %s whose current owner specification (version %d: %s %+v) it does not satisfy", ps.uid(), ps.NS, ps.Labels, ps.Ctrl, uid, i, st.Mode, st.Owners)
+				}
+				return true, nil
+			})
+		}
+		if len(s.st.pods) > 0 {
+			// offered at all <=> Running and Ready with a parsable owner specification
+			if want := ready && spec.parseOK(); offered[uid] != want {
+				s.fail("opmode-enumeration", fmt.Sprintf("offered=%v", offered[uid]), "operating-mode pod %s (version %d: %s, ready=%v, owner specification parsable=%v) offered on %s: %v", uid, i, st.Mode, ready, spec.parseOK(), node, offered[uid])
+			}
+		}
+		if _, ok := h.cache.reservationsOnNode[node][types.UID(uid)]; !ok {
+			s.fail("opmode-index", "live-reservation-not-listed", "operating-mode pod %s is placed on %s but reservationsOnNode[%s]=%v", uid, node, node, uidSet(h.cache.reservationsOnNode[node]))
+		}
+	}
+	h.OnDelete(prev)
+	if n := len(h.cache.reservationInfos) + len(h.cache.reservationsOnNode) + len(h.cache.matchableOnNode) + len(h.cache.allocatedOnNode); n != 0 {
+		s.fail("opmode-index", "references-deleted-reservation", "operating-mode pod %s was deleted but the cache keeps reservationInfos=%d reservationsOnNode=%v matchableOnNode=%v", uid, len(h.cache.reservationInfos), h.cache.reservationsOnNode, h.cache.matchableOnNode)
+	}
+	r.Event("opmode %s %s versions=%d", uid, node, len(op.Script))
 }
